@@ -191,6 +191,50 @@ pub fn run(ctx: &mut Ctx) {
     });
     sweep16!(ctx, "cipher.server_hello_draft18", |v, rng| { hs_ok(&AHs::ServerHello13 { version: 0x7f12, random: rng.bytes(32), cipher: v, ext: None }) });
     sweep16!(ctx, "cipher.hello_retry_request", |v, rng| { hs_ok(&AHs::HelloRetryRequest { version: 0x7f16, cipher: v, ext: if rng.bool() { None } else { Some(vec![]) } }) });
+    // self-describing counts: the cipher id equals the number of bytes that follow it in the message, the extension
+    // block length the number that follow IT, the first extension's type the number that follow it, and so on (every
+    // 16-bit field of the tail is a correct count of what follows: the encoding stays well formed when read two
+    // bytes further on, which is what a parser that tries an alternative layout would do)
+    sweep16!(ctx, "cipher.self-describing-counts", |v, _rng| {
+        let c = v as usize;
+        let chain = |l: usize| -> Option<Vec<u8>> {
+            // extension block content of l bytes: (type = l - 2, length = l - 4, zeros)
+            if l == 0 {
+                Some(vec![])
+            } else if l >= 4 {
+                let mut b = Vec::with_capacity(l);
+                b.extend_from_slice(&((l - 2) as u16).to_be_bytes());
+                b.extend_from_slice(&((l - 4) as u16).to_be_bytes());
+                b.resize(l, 0);
+                Some(b)
+            } else {
+                None
+            }
+        };
+        let mut good = true;
+        let mut bad_input = vec![];
+        for ver in [0x7f12u16, 0x7f16, 0x0304] {
+            let ext = if c >= 2 { chain(c - 2) } else { None };
+            let (g, b) = hs_ok(&AHs::HelloRetryRequest { version: ver, cipher: v, ext });
+            if !g && good {
+                good = false;
+                bad_input = b[..b.len().min(48)].to_vec();
+            }
+        }
+        let ext = if c >= 2 { chain(c - 2) } else { None };
+        let (g, b) = hs_ok(&AHs::ServerHello13 { version: 0x7f12, random: vec![0x5a; 32], cipher: v, ext });
+        if !g && good {
+            good = false;
+            bad_input = b[..b.len().min(48)].to_vec();
+        }
+        let ext = if c >= 3 { chain(c - 3) } else { None };
+        let (g, b) = hs_ok(&AHs::ServerHello(crate::refenc::ASh { version: 0x0303, random: vec![0x5a; 32], sid: vec![], cipher: v, comp: 0, ext }));
+        if !g && good {
+            good = false;
+            bad_input = b[..b.len().min(48)].to_vec();
+        }
+        (good, bad_input)
+    });
     sweep16!(ctx, "cipher.esni", |v, rng| { ext_ok(&AExt::Esni { suite: v, group: 29, key_share: rng.bytes(4), digest: rng.bytes(3), sni: rng.bytes(5) }) });
     sweep16!(ctx, "cipher.dtls_client_hello", |v, rng| {
         let mut body = gen::dtls_body(&mut rng, gen::TINY, 0);
